@@ -999,7 +999,7 @@ def analyze(t):
         for v in vs:
             if v["printable"] == "":
                 off["namesNonempty"].append(dict(enum=e["name"], variant=v["name"], where=loc(v)))
-        for (i, j) in dups([v["printable"] for v in vs]):
+        for (i, j) in dups([v["printable"] if v["printable"] else ("", k) for k, v in enumerate(vs)]):   # empty names: namesNonempty
             off["namesDistinct"].append(dict(enum=e["name"], variants=[vs[i]["name"], vs[j]["name"]], printable=vs[i]["printable"], where=loc(vs[j])))
         cnames = {v["name"] for v in vs}
         image = set()
